@@ -22,7 +22,14 @@ CFG = {
             "read complete?, client gone, saw EOF, close_returned(result), waiter released(result), "
             "connect-after-close result), judged in Coq: the property clauses evaluated on the log (spec) and "
             "acceptance by the shutdown model with the unobservable server-internal steps placed. Non-trivial: "
-            "at least one connection or waiter; distinct by scenario script. Crowds (group crowd, tags crowd-*): "
+            "at least one connection or waiter; distinct by scenario script. Who drives close() "
+            "(close-driven-by:*): a task on the server's runtime, or a plain std thread outside any Tokio runtime "
+            "with futures::executor::block_on, or by polling by hand with a no-op waker (a panic there leaves no "
+            "close_returned: violation). Waiters (fused-waiters:n): besides the plain .await waiters, n waiters are "
+            "consumed through futures::select! - the FusedFuture interface - polled (odd ones: polled again) only "
+            "after close() has returned, is_terminated() recorded before and after; one that select! never polls "
+            "because it claims to be terminated is a waiter never released (violation). 9 fixed scenarios per mode "
+            "(h1) plus a fifth of the mixed scenarios off-runtime and a third with fused waiters. Crowds (group crowd, tags crowd-*): "
             "per mode, shutdown requested while 63, 64, 65, 127, 128, 129, 257 h1 connections (thorough: also 513, "
             "1025, and every prefix for sizes up to 257) each have a handler in flight - a prefix (one, half, all but "
             "one, all, rotated) of the clients leaves, alternately before close() and during shutdown, the rest "
@@ -50,7 +57,8 @@ CFG = {
         "waitgroup 0.1.2 (library contract, guard of step WaitgroupDone): wait() returns once every Worker clone "
         "has been dropped",
         "futures Shared (library contract, guard of step Release): every clone of the shared join future yields "
-        "the one result of the inner future",
+        "the one result of the inner future; futures::select!, futures::executor::block_on and noop_waker as the "
+        "harness's means of consuming close() and the waiters",
         "tokio: a spawned task runs to completion; dropping the server task's future drops the TcpListener it owns",
         "the harness's instrumentation: one mutex-protected event log; close_called is logged before close() is "
         "called and close_returned after it returned; handler events from inside the handler future; clients log "
